@@ -88,7 +88,7 @@ def unit(arg):
 
 def plan(ctx):
     units = []
-    budget = 250 if ctx.quick else 2400
+    budget = 600 if ctx.quick else 3000
     for notation in ('polish', 'standard'):
         N = (5 if notation == 'polish' else 4) if ctx.quick else (6 if notation == 'polish' else 5)
         alpha = parsex.ALPHABETS[(notation, 'reduced')]
